@@ -7,9 +7,10 @@ import sys
 import time
 
 HERE = os.path.dirname(os.path.dirname(os.path.abspath(__file__)))
-EVIDENCE_DIR = os.path.join(HERE, "evidence")
+EVIDENCE_DIR = os.environ.get("VERIF_EVIDENCE_DIR") or os.path.join(HERE, "evidence")
 BASELINE_DIR = os.path.join(HERE, "baseline")
 REPLAY_DIR = os.path.join(HERE, "out", "replay")
+BASELINE_DIR_RO = BASELINE_DIR
 FINDINGS = os.path.join(HERE, "known_findings.json")
 VENV_PY = "/venv/bin/python"
 
@@ -117,7 +118,8 @@ def finish(prop, tier, seed, R, outs, t0, update_baseline=False, extra_items=Non
         can = o.get("canary")
         if can and can.get("status") == "contradictory":
             faults.append(dict(target=o["target"], why="vacuity canary: requires/typing assumptions are contradictory"))
-        if o["kind"] == "contract" and o.get("exits") and (o["exits"].get("normal", 0) + o["exits"].get("raise", 0)) == 0:
+        if o["kind"] == "contract" and o.get("exits") and (o["exits"].get("normal", 0) + o["exits"].get("raise", 0)) == 0 \
+                and all(r["status"] == "proved" for r in o["results"]) and not skipped:
             faults.append(dict(target=o["target"], why="no path reaches an exit (vacuous)"))
         for r in o["results"]:
             n_obl += 1
